@@ -1738,7 +1738,9 @@ func (s *Server) clearExpiredClients(dt int64) {
 
 		if disconnected+int64(expire) < dt {
 			s.hooks.OnClientExpired(client)
-			s.Clients.Delete(id) // [MQTT-4.1.0-2]
+			client.ClearInflights()     // the session ends: nothing of it may survive
+			s.UnsubscribeClient(client) // [MQTT-4.1.0-2]
+			s.Clients.Delete(id)        // [MQTT-4.1.0-2]
 		}
 	}
 }
